@@ -171,9 +171,9 @@ func (f *fakeDedicated) Receive(ctx context.Context, subscribe rueidis.Completed
 	f.l.add(call{who: f.name, method: "Receive", ctx: ctx, cmd: subscribe, fn: fn})
 	return f.out.err
 }
-func (f *fakeDedicated) SetPubSubHooks(rueidis.PubSubHooks) <-chan error            { return nil }
+func (f *fakeDedicated) SetPubSubHooks(rueidis.PubSubHooks) <-chan error              { return nil }
 func (f *fakeDedicated) SetOnInvalidations(func([]rueidis.RedisMessage)) <-chan error { return nil }
-func (f *fakeDedicated) Close()                                                     { f.l.add(call{who: f.name, method: "Close"}) }
+func (f *fakeDedicated) Close()                                                       { f.l.add(call{who: f.name, method: "Close"}) }
 
 // ---------------------------------------------------------------------------
 // counting hook: either answers with its own sentinels, or delegates to the client it was given
@@ -446,7 +446,7 @@ func TestC43(t *testing.T) {
 		"functions are compared by delivering a unique message through them")
 	rng := run.Rand("args")
 	addrs := []string{"10.0.0.1:6379", "10.0.0.2:6380"}
-	reps := run.N(300, 6000)
+	reps := run.N(1000, 20000)
 	combos := 0
 	for _, e := range entries(addrs) {
 		ms := methods
